@@ -382,7 +382,7 @@ func decodePass(which string, pl []byte, par sei.HEVCPicTimingParams) (string, s
 func hevcParString(p sei.HEVCPicTimingParams) string {
 	return strings.Join([]string{b01(p.FrameFieldInfoPresentFlag), b01(p.CpbDpbDelaysPresentFlag), b01(p.SubPicHrdParamsPresentFlag),
 		b01(p.SubPicCpbParamsInPicTimingSeiFlag), hu(uint64(p.AuCbpRemovalDelayLengthMinus1)), hu(uint64(p.DpbOutputDelayLengthMinus1)),
-		hu(uint64(p.DpbOutputDelayDuLengthMinus1))}, ",")
+		hu(uint64(p.DpbOutputDelayDuLengthMinus1)), hu(uint64(p.DuCpbRemovalDelayIncrementLengthMinus1))}, ",")
 }
 
 func genHevcPar(r *hx.Rng) sei.HEVCPicTimingParams {
@@ -585,7 +585,6 @@ func checkTyped(r *hx.Rng, i int) {
 			pl = r.Bytes(r.Pick(16, 17, 20, 40, 300), escAlphabet)
 		case "P1H":
 			par = genHevcPar(r)
-			par.SubPicCpbParamsInPicTimingSeiFlag = false // the sub-picture branch indexes nil slices: C16
 			pl = r.Bytes(r.Range(1, 14), nil)
 		}
 		dc, _, m := decodePass(which, pl, par)
